@@ -456,6 +456,9 @@ func (r *runner) note(sc int, a btcutil.Address, by string, committed bool) stri
 	if e := r.uIdx[a.String()]; e != nil {
 		if committed {
 			e.by, e.committed = by, true
+		} else if !e.committed {
+			// handed out again by another rolled-back operation: the LATEST one is what left it cached
+			e.by = by
 		}
 		return txt
 	}
